@@ -52,6 +52,25 @@ for _p in ("C01", "C02", "C09", "C11", "C13", "C18"):
     PLANS[_p] = Plan(_p, decide_models, extra=gen.random_decide, rule=DECIDE_RULE)
 
 
+def hist_models(*fams):
+    def f(tier):
+        cap = {"quick": 5000, "thorough": 400000}
+        return [mc("MC_hist", "hist_" + fam, replay_cap=cap, Defects="{}", Family=q(fam), Tier=q(tier), Export="TRUE") for fam in fams]
+    return f
+
+
+HIST_RULE = ("behaviours = every history of the MC_hist families named in model_checks (bounded scenario trees over requests with "
+             "different selecting header values, origin answers whose Vary changes, unsafe requests with Location / "
+             "Content-Location, validation by 304 or full reply in the foreground or background), exported by TLC and replayed "
+             "into the real transport (quick: stratified sample), plus seeded random / periodic histories; non-trivial = the "
+             "antecedent of one of this property's monitors is true in a recorded trace state (counted by TLC)")
+
+PLANS["C04"] = Plan("C04", hist_models("vary", "wb"), extra=gen.random_vary, rule=HIST_RULE)
+PLANS["C07"] = Plan("C07", hist_models("inval"), extra=gen.random_inval, rule=HIST_RULE)
+PLANS["C08"] = Plan("C08", hist_models("wb", "vary"), extra=gen.random_vary, rule=HIST_RULE)
+PLANS["C19"] = Plan("C19", hist_models("vary", "inval"), extra=gen.periodic, rule=HIST_RULE)
+
+
 # ----------------------------------------------------------------------------
 
 def setup():
